@@ -553,6 +553,19 @@ def run_property(ctx, spec):
             # The constructor raises AttributeError; whatever the relations were, nothing may have changed (C15).  The
             # model's verdict on this call (it expects the task to exist) is replaced by that clause.
             stv = h['steps'][v // 100 - 1]
+            if stv['how'].get('bad_est') and stv['code'] == 1:
+                # likewise a negative estimate / spent next to relation arguments: RuntimeError, and nothing changed
+                prev = h['steps'][v // 100 - 2]['post'] if v // 100 >= 2 else EMPTY
+                kept.remove(v)
+                if spec.pid == 'C15' and stv['post'] != prev and not stv.get('bad_kw_reported'):
+                    stv['bad_kw_reported'] = True
+                    origin = ('corpus: ' + h['corpus']) if 'corpus' in h else 'generated history, seed %s' % h.get('seed')
+                    ctx.failure('C15/NewTaskRel/negative-amount-rejected-after-relations',
+                                'C15/NewTaskRel: the constructor raised RuntimeError (%s=-1) and left relations changed, after %s (%s)'
+                                % (stv['how']['bad_est'], describe_call(stv), origin),
+                                {'kind': 'ops', 'items': items_of(h, v // 100 - 1), 'origin': origin, 'call_index': v // 100 - 1,
+                                 'op': stv['op'], 'how': stv['how'], 'pre': prev, 'observed': {'post': stv['post']}})
+                continue
             if stv['how'].get('bad_kw') and stv['code'] == 17:
                 prev = h['steps'][v // 100 - 2]['post'] if v // 100 >= 2 else EMPTY
                 kept.remove(v)
